@@ -787,6 +787,104 @@ Proof.
   rewrite (ticket_roundtrip_head k0 keys keys iv s t Hiv Hwf Henc'). reflexivity.
 Qed.
 
+(* ---------- a family of configs: clones are independent values ---------- *)
+Notation sstep := (sstep sha512).
+Notation srun := (srun sha512).
+
+Lemma nth_upd_same {A} (l : list A) i x c : nth_error l i = Some c -> nth_error (upd l i x) i = Some x.
+Proof. revert i. induction l as [|y l IH]; intros [|i] H; cbn in *; try discriminate; auto. Qed.
+Lemma nth_upd_other {A} (l : list A) i j x : i <> j -> nth_error (upd l i x) j = nth_error l j.
+Proof. revert i j. induction l as [|y l IH]; intros [|i] [|j] H; cbn; auto; try congruence. Qed.
+Lemma upd_length {A} (l : list A) i x : length (upd l i x) = length l.
+Proof. revert i. induction l as [|y l IH]; intros [|i]; cbn; auto. Qed.
+
+Definition touches (j : nat) (op : sop) : Prop := match op with SSet i _ => i = j | SClone _ => False end.
+
+(* one step: every other config keeps its value; a clone equals its source and changes nobody *)
+Lemma sstep_frame now st op st' j c : sstep now st op = Ok st' -> ~ touches j op ->
+  nth_error st j = Some c -> nth_error st' j = Some c.
+Proof.
+  intros H Ht Hj. destruct op as [i ks | i]; cbn [Ticket.sstep] in H.
+  - destruct (nth_error st i) as [ci|] eqn:Ei; [|discriminate].
+    apply bind_ok in H. destruct H as (c' & _ & H). apply ok_inj in H. subst st'.
+    rewrite nth_upd_other; [exact Hj | cbn in Ht; congruence].
+  - destruct (nth_error st i) as [ci|] eqn:Ei; [|discriminate]. apply ok_inj in H. subst st'.
+    rewrite nth_error_app1; [exact Hj | apply nth_error_Some; congruence].
+Qed.
+
+Theorem clone_is_copy now st i st' : sstep now st (SClone i) = Ok st' ->
+  nth_error st' (length st) = nth_error st i /\ forall j, (j < length st)%nat -> nth_error st' j = nth_error st j.
+Proof.
+  cbn [Ticket.sstep]. destruct (nth_error st i) as [ci|] eqn:Ei; [|discriminate]. intros H. apply ok_inj in H. subst st'.
+  split.
+  - rewrite nth_error_app2, Nat.sub_diag by lia. reflexivity.
+  - intros j Hj. apply nth_error_app1. exact Hj.
+Qed.
+
+Lemma srun_frame now ops : forall st st' j c, srun now st ops = Ok st' ->
+  Forall (fun op => ~ touches j op) ops -> nth_error st j = Some c -> nth_error st' j = Some c.
+Proof.
+  induction ops as [|op ops IH]; intros st st' j c H Hf Hj.
+  - cbn in H. apply ok_inj in H. subst. exact Hj.
+  - cbn [Ticket.srun] in H. apply bind_ok in H. destruct H as (st1 & H1 & H).
+    inversion Hf as [|? ? Hop Hrest]; subst.
+    eapply IH; [exact H | exact Hrest | eapply sstep_frame; eauto].
+Qed.
+
+Lemma srun_app now a b st st' : srun now st (a ++ b) = Ok st' ->
+  exists st1, srun now st a = Ok st1 /\ srun now st1 b = Ok st'.
+Proof.
+  revert st. induction a as [|op a IH]; intros st H.
+  - exists st. split; [reflexivity | exact H].
+  - cbn [app Ticket.srun] in H. apply bind_ok in H. destruct H as (s1 & H1 & H).
+    destruct (IH _ H) as (s2 & A & B). exists s2. split; [|exact B]. cbn [Ticket.srun]. rewrite H1. exact A.
+Qed.
+
+(* In any history over any family of configs (rotations of other configs, clones of anything in between),
+   exactly the last list set on THIS config is in force on it. *)
+Theorem family_last_set now st pre j ks suf st' :
+  ks <> [] -> srun now st (pre ++ SSet j ks :: suf) = Ok st' ->
+  Forall (fun op => ~ touches j op) suf ->
+  exists c, nth_error st' j = Some c /\ map fst (c_keys c) = map ticket_key_from_bytes ks.
+Proof.
+  intros Hks H Hsuf. apply srun_app in H. destruct H as (s1 & _ & H).
+  cbn [Ticket.srun] in H. apply bind_ok in H. destruct H as (s2 & Hstep & H).
+  cbn [Ticket.sstep] in Hstep. destruct (nth_error s1 j) as [cj|] eqn:Ej; [|discriminate].
+  apply bind_ok in Hstep. destruct Hstep as (c' & Hset & Hs2). apply ok_inj in Hs2. subst s2.
+  destruct ks as [|k0 ks]; [congruence|]. cbn [Ticket.set_session_ticket_keys] in Hset. apply ok_inj in Hset.
+  exists c'. split.
+  - eapply srun_frame; [exact H | exact Hsuf | eapply nth_upd_same; exact Ej].
+  - subst c'. cbn [c_keys]. rewrite map_map. reflexivity.
+Qed.
+
+(* a config that is never set after being cloned keeps the keys its source had at clone time *)
+Theorem family_clone_inherits now st i st1 suf st' c :
+  sstep now st (SClone i) = Ok st1 -> nth_error st i = Some c -> srun now st1 suf = Ok st' ->
+  Forall (fun op => ~ touches (length st) op) suf ->
+  nth_error st' (length st) = Some c.
+Proof.
+  intros Hc Hi H Hsuf. destruct (clone_is_copy _ _ _ _ Hc) as [Hnew _].
+  eapply srun_frame; [exact H | exact Hsuf | rewrite Hnew; exact Hi].
+Qed.
+
+(* whole-input framing: an accepted ticket IS iv(16) || ct || HMAC_k(iv || ct) for a configured k — nothing may
+   precede the iv or follow the tag *)
+Theorem ticket_whole_input keys t s : DecryptTicket keys t = Some s ->
+  exists k, In k keys /\ length (t_iv t) = ivLen /\
+    t = t_iv t ++ t_ct t ++ hmac (k_hmac k) (t_iv t ++ t_ct t) /\
+    parse_state x509ok (ctr (k_aes k) (t_iv t) (t_ct t)) = Ok s.
+Proof.
+  intros H. destruct (ticket_mac_covers_all keys t s H) as (L & k & Hin & Hm & Hp).
+  assert (La : (ivLen <= length (t_auth t))%nat).
+  { unfold t_auth. rewrite firstn_length. unfold ivLen, macLen in *. lia. }
+  assert (Ha : t_auth t = t_iv t ++ t_ct t).
+  { unfold t_ct. rewrite <- (firstn_skipn ivLen (t_auth t)) at 1. f_equal.
+    unfold t_iv, t_auth. rewrite firstn_firstn. f_equal. unfold ivLen, macLen in *. lia. }
+  exists k. split; [exact Hin|]. split.
+  - unfold t_iv. apply firstn_length_le. unfold ivLen, macLen in *. lia.
+  - split; [|exact Hp]. rewrite <- Ha, Hm, app_assoc. rewrite <- Ha. apply t_split.
+Qed.
+
 End Crypto.
 
 (* ---------- forged ClientSessionState ---------- *)
